@@ -69,8 +69,8 @@ func init() {
 		if thorough {
 			nh, ncrc, nfiles, maxLen = 50, 65536, 200, 6000
 		}
-		return []CaseSet{genHeaders(r, nh, ncrc), genBursts(r, nfiles, maxLen, thorough), genAcceptedAnyReader(r, nfiles/2, maxLen), genHeaderMismatch(r, nfiles, maxLen)},
-			"headers: random field values x {matching CRC, " + strconv.Itoa(ncrc) + " stored CRCs, every single-byte corruption of every header byte, illegal sizes 0-255} through Header.CheckIntegrity, DecodeHeader and CheckIntegrity(headerOnly) (verdicts must agree); bursts: valid files (corpus + generated, both header sizes) x every start bit x window lengths 1-16 x patterns outside header bytes 0 and 4-7, plus value-targeted overwrites of aligned byte pairs (zero, all ones, swapped, checksum of the prefix, complement, ...) at the header fields, header CRC, record start and file CRC, through CheckIntegrity and Decode (must both reject); files whose 14-byte header does not match its stored non-zero CRC while the trailing file CRC was recomputed to fit (only the header CRC can reject them): CheckIntegrity, Decode, DecodeHeader and DecodeHeaderAndFileID must all reject; accepted files through CheckIntegrity and Decode behind readers that deliver 1, 2, 3, 7, 13, 4095 … bytes per call, short reads and data-with-EOF (a file Decode accepts must pass CheckIntegrity whatever the reader)", false
+		return []CaseSet{genHeaders(r, nh, ncrc), genBursts(r, nfiles, maxLen, thorough), genAcceptedAnyReader(r, nfiles/2, maxLen), genHeaderMismatch(r, nfiles, maxLen), genVerdictSequences(r, nfiles, maxLen)},
+			"headers: random field values x {matching CRC, " + strconv.Itoa(ncrc) + " stored CRCs, every single-byte corruption of every header byte, illegal sizes 0-255} through Header.CheckIntegrity, DecodeHeader and CheckIntegrity(headerOnly) (verdicts must agree); bursts: valid files (corpus + generated, both header sizes) x every start bit x window lengths 1-16 x patterns outside header bytes 0 and 4-7, plus value-targeted overwrites of aligned byte pairs (zero, all ones, swapped, checksum of the prefix, complement, ...) at the header fields, header CRC, record start and file CRC, through CheckIntegrity and Decode (must both reject); files whose 14-byte header does not match its stored non-zero CRC while the trailing file CRC was recomputed to fit (only the header CRC can reject them): CheckIntegrity, Decode, DecodeHeader and DecodeHeaderAndFileID must all reject; accepted files through CheckIntegrity and Decode behind readers that deliver 1, 2, 3, 7, 13, 4095 … bytes per call, short reads and data-with-EOF (a file Decode accepts must pass CheckIntegrity whatever the reader); sequences of 4-14 integrity calls in one process (CheckIntegrity header-only and full, DecodeHeader, Decode) over valid files of all three header layouts and corrupted ones: every verdict must be what the same call gives alone", false
 	}
 	propPost["C04"] = postC04
 }
@@ -304,4 +304,43 @@ func postC04(res *RunResult) {
 			}
 		}
 	}
+}
+
+// genVerdictSequences: the verdict of an integrity call must not depend on the calls made before it
+// in the same process: header-only and full checks, DecodeHeader and Decode over valid files of all
+// header layouts (12 bytes, 14 bytes with a zero CRC field, 14 bytes with CRC) and corrupted ones,
+// one after another (the model gives every call the verdict it has alone).
+func genVerdictSequences(r *rng, nfiles, maxLen int) CaseSet {
+	cs := CaseSet{Name: "verdict-sequences"}
+	var files [][]byte
+	for _, f := range validFiles(r, nfiles, maxLen) {
+		if len(f) <= maxLen {
+			files = append(files, f)
+		}
+	}
+	if len(files) == 0 {
+		return cs
+	}
+	entries := []string{"integhdr", "integ", "header", "decode", "integhdr", "integ"}
+	for i := 0; i < 3*nfiles; i++ {
+		k := 4 + r.intn(11)
+		calls := make([]string, 0, k)
+		for j := 0; j < k; j++ {
+			f := files[r.intn(len(files))]
+			if r.chance(15) {
+				g := append([]byte{}, f...)
+				g[r.intn(len(g))] ^= byte(1 << uint(r.intn(8)))
+				f = g
+			}
+			e := entries[r.intn(len(entries))]
+			calls = append(calls, decCase(e, "000", "-", "-", f))
+			if e == "integhdr" && r.chance(60) && j+1 < k {
+				// a full check right after a header-only one
+				calls = append(calls, decCase("integ", "000", "-", "-", files[r.intn(len(files))]))
+				j++
+			}
+		}
+		cs.Cases = append(cs.Cases, "hist "+strings.Join(calls, "^"))
+	}
+	return cs
 }
